@@ -39,6 +39,81 @@ def opt_eq_date(o, cond_some, date):
     return If(cond_some, And(o.is_some, eq3(o.some.ints(), date)), o.is_none)
 
 
+
+def date_is(o, epoch):
+    d = o.ints()
+    return And(ref_valid_date(*d), ref_epoch_day(*d) == epoch)
+
+
+def nth_of_month_claim(a, o, with_weekday):
+    """a = (y, m, d, nth, w); o: Option<...> whose payload's first three ints are the date"""
+    y, m, d, nth, w = a
+    e1 = ref_epoch_day(y, m, 1)
+    dim = ref_dim(y, m)
+    wd1 = ref_weekday_monday1(e1)
+    wdl = ref_weekday_monday1(e1 + dim - 1)
+    pos = 1 + (w - wd1) % 7 + 7 * (nth - 1)
+    neg = dim - (wdl - w) % 7 - 7 * (-nth - 1)
+    day = If(nth > 0, pos, neg)
+    ok = And(nth != 0, nth >= -5, nth <= 5, day >= 1, day <= dim)
+
+    def payload(r):
+        ints = r.ints()
+        c = And(ints[0] == y, ints[1] == m, ints[2] == day)
+        if with_weekday:
+            c = And(c, ints[3] == w)
+        return c
+    return opt_is(o, ok, payload)
+
+
+def nth_weekday_claim(a, o):
+    y, m, d, nth, w = a
+    e = ref_epoch_day(y, m, d)
+    wd = ref_weekday_monday1(e)
+    fwd = e + 1 + (w - wd - 1) % 7 + 7 * (nth - 1)
+    bwd = e - 1 - (wd - 1 - w) % 7 - 7 * (-nth - 1)
+    tgt = If(nth > 0, fwd, bwd)
+    ok = And(nth != 0, in_range(nth, -1043497, 1043497), in_range(tgt, MIN_DAY, MAX_DAY))
+    return And(o.is_some, opt_is(o.some, ok, lambda r: date_is(r, tgt)))
+
+
+def date_facts_claim(a, o):
+    y, m, d = a
+    e = ref_epoch_day(y, m, d)
+    e0 = ref_epoch_day(y, 1, 1)
+    dim = ref_dim(y, m)
+
+    def facts(r):
+        return And(r[0].i == ref_weekday_monday1(e), r[1].i == e - e0 + 1, r[2].b == ref_is_leap(y), r[3].i == dim,
+                   r[4].i == If(ref_is_leap(y), 366, 365), eq3(r[5].ints(), (y, m, 1)), eq3(r[6].ints(), (y, m, dim)),
+                   eq3(r[7].ints(), (y, 1, 1)), eq3(r[8].ints(), (y, 12, 31)))
+    return opt_is(o, ref_valid_date(y, m, d), facts)
+
+
+def ref_long_year(y):
+    wd = ref_weekday_monday1(ref_epoch_day(y, 12, 31))
+    return Or(wd == 4, And(ref_is_leap(y), wd == 5))
+
+
+def iso_claim(a, o):
+    y, m, d = a
+    e = ref_epoch_day(y, m, d)
+    wd = ref_weekday_monday1(e)
+    th = e - (wd - 1) + 3
+    iy, iw, iwd = o.some[0].i, o.some[1].i, o.some[2].i
+    j1 = ref_epoch_day(iy, 1, 1)
+    return And(o.is_some, iwd == wd, j1 <= th, th <= ref_epoch_day(iy, 12, 31), iw == (th - j1) / 7 + 1, eq3(o.some[3].ints(), (y, m, d)))
+
+
+def iso_new_claim(a, o):
+    y, w, wd = a
+    jan4 = ref_epoch_day(y, 1, 4)
+    mon1 = jan4 - (ref_weekday_monday1(jan4) - 1)
+    e = mon1 + (w - 1) * 7 + (wd - 1)
+    ok = And(in_range(y, -9999, 9999), w >= 1, w <= If(ref_long_year(y), 53, 52), in_range(e, MIN_DAY, MAX_DAY))
+    return And(o.is_some, opt_is(o.some, ok, lambda r: And(date_is(r[0], e), r[1].i == y, r[2].i == w, r[3].i == wd)))
+
+
 KERNELS = [
     K("c01::k_to_date", pre=day_in,
       claims=[("L1 anchors: day 0 = 1970-01-01, MIN = -9999-01-01, MAX = 9999-12-31", anchors),
@@ -87,4 +162,64 @@ KERNELS = [
     K("c01::k_date_new", pre=lambda a: BoolVal(True),
       claims=[("L10 Date::new Ok iff (y, m, d) is a valid Gregorian date in range; fields preserved",
                lambda a, o: opt_eq_date(o, ref_valid_date(a[0], a[1], a[2]), (a[0], a[1], a[2])))]),
+    # ---------------- closed-form cross-check and the public civil::Date API
+    K("c01::k_to_epoch_day", pre=valid,
+      claims=[("to_epoch_day == textbook closed form (365y + leap days + month offset + day)", lambda a, o: o.i == ref_epoch_day(a[0], a[1], a[2]))],
+      bounds={0: (-9999, 9999), 1: (1, 12), 2: (1, 31)}, split=(0, {"quick": 4, "thorough": 16})),
+    K("c01::k_ichecked_add_days", pre=valid,
+      claims=[("IDate::checked_add_days (incl. the 0 / +1 / -1 fast paths) == epoch day + n; Err iff out of range",
+               lambda a, o: opt_is(o[0], in_range(o[1].i + a[3], MIN_DAY, MAX_DAY), lambda r: date_is(r, o[1].i + a[3])))],
+      bounds={0: (-9999, 9999), 1: (1, 12), 2: (1, 31)}, split=(0, {"quick": 4, "thorough": 16})),
+    K("c01::k_ifrom_doy", pre=lambda a: in_range(a[0], -9999, 9999),
+      claims=[("IDate::from_day_of_year: Ok iff 1 <= doy <= days in year; date = Jan 1 + doy - 1",
+               lambda a, o: opt_is(o[0], in_range(a[1], 1, If(ref_is_leap(a[0]), 366, 365)), lambda r: date_is(r, o[1].i + a[1] - 1)))],
+      bounds={0: (-9999, 9999)}, split=(0, {"quick": 4, "thorough": 16})),
+    K("c01::k_ifrom_doy_no_leap", pre=lambda a: in_range(a[0], -9999, 9999),
+      claims=[("IDate::from_day_of_year_no_leap: Ok iff 1 <= doy <= 365; Feb 29 is never produced; day n of a 365-day numbering",
+               lambda a, o: opt_is(o[0], in_range(a[1], 1, 365),
+                                   lambda r: And(date_is(r, o[1].i + a[1] - 1 + If(And(ref_is_leap(a[0]), a[1] >= 60), 1, 0)),
+                                                 Not(And(r[1].i == 2, r[2].i == 29)))))],
+      bounds={0: (-9999, 9999)}, split=(0, {"quick": 4, "thorough": 16})),
+    K("c01::k_weekday_since", pre=lambda a: And(in_range(a[0], 1, 7), in_range(a[1], 1, 7)),
+      claims=[("IWeekday::since == (a - b) mod 7", lambda a, o: o.i == (a[0] - a[1]) % 7)]),
+    K("c01::k_weekday_from_sunday_zero", pre=lambda a: in_range(a[0], 0, 6),
+      claims=[("Sunday-zero offset -> Monday-one offset", lambda a, o: o.i == If(a[0] == 0, 7, a[0]))]),
+    K("c01::k_inth_weekday_of_month", pre=lambda a: And(valid(a), in_range(a[4], 1, 7)),
+      claims=[("IDate::nth_weekday_of_month == the unique day of the month with that weekday and ordinal; Err iff none / nth == 0 / |nth| > 5",
+               lambda a, o: nth_of_month_claim(a, o, True))],
+      bounds={0: (-9999, 9999), 1: (1, 12), 2: (1, 31), 3: (-128, 127), 4: (1, 7)}, split=(0, {"quick": 4, "thorough": 16})),
+    K("c01::k_date_facts", pre=lambda a: BoolVal(True),
+      claims=[("Date::{weekday, day_of_year, in_leap_year, days_in_month, days_in_year, first/last_of_month, first/last_of_year} == calendar facts",
+               date_facts_claim)],
+      split=(0, {"quick": 4, "thorough": 16}), bounds={0: (-32768, 32767)}),
+    K("c01::k_date_doy_no_leap", pre=lambda a: BoolVal(True),
+      claims=[("Date::day_of_year_no_leap: None exactly on Feb 29, otherwise the day number in a 365-day year",
+               lambda a, o: If(valid(a), And(o.is_some, (lambda e, e0: opt_is(o.some, Not(And(a[1] == 2, a[2] == 29)),
+                                lambda r: r.i == e - e0 + 1 - If(And(ref_is_leap(a[0]), a[1] > 2), 1, 0)))(ref_epoch_day(a[0], a[1], a[2]), ref_epoch_day(a[0], 1, 1))), o.is_none))]),
+    K("c01::k_date_tomorrow", pre=lambda a: BoolVal(True),
+      claims=[("L7 Date::tomorrow == calendar successor (own fast path), Err exactly at 9999-12-31",
+               lambda a, o: If(valid(a), And(o.is_some, opt_eq_date(o.some, Not(And(a[0] == 9999, a[1] == 12, a[2] == 31)), ref_succ(a[0], a[1], a[2]))), o.is_none))]),
+    K("c01::k_date_yesterday", pre=lambda a: BoolVal(True),
+      claims=[("L7 Date::yesterday == calendar predecessor, Err exactly at -9999-01-01",
+               lambda a, o: If(valid(a), And(o.is_some, opt_eq_date(o.some, Not(And(a[0] == -9999, a[1] == 1, a[2] == 1)), ref_pred(a[0], a[1], a[2]))), o.is_none))]),
+    K("c01::k_date_nth_weekday_of_month", pre=lambda a: And(valid(a), in_range(a[4], 1, 7)),
+      claims=[("Date::nth_weekday_of_month (public) == the unique day of the month with that weekday and ordinal",
+               lambda a, o: And(o.is_some, nth_of_month_claim(a, o.some, False)))],
+      bounds={0: (-9999, 9999), 1: (1, 12), 2: (1, 31), 3: (-128, 127), 4: (1, 7)}, split=(0, {"quick": 4, "thorough": 16})),
+    K("c01::k_date_nth_weekday", pre=lambda a: And(valid(a), in_range(a[4], 1, 7)),
+      claims=[("Date::nth_weekday(nth: i32) == nth occurrence of the weekday strictly after/before the date; Err iff nth == 0 or out of range",
+               nth_weekday_claim)],
+      bounds={0: (-9999, 9999), 1: (1, 12), 2: (1, 31), 4: (1, 7)}, split=(0, {"quick": 4, "thorough": 16})),
+    K("c01::k_date_iso", pre=valid,
+      claims=[("L9 Date::iso_week_date == (year of the week's Thursday, ordinal of that week, weekday); iso.date() is the identity", iso_claim)],
+      bounds={0: (-9999, 9999), 1: (1, 12), 2: (1, 31)}, split=(0, {"quick": 8, "thorough": 32})),
+    K("c01::k_iso_new", pre=lambda a: in_range(a[2], 1, 7),
+      claims=[("L9 ISOWeekDate::new Ok iff 1 <= week <= weeks(year) and the date is in range; date(iso) and back are consistent", iso_new_claim)],
+      bounds={0: (-32768, 32767), 1: (-128, 127), 2: (1, 7)}, split=(0, {"quick": 8, "thorough": 32})),
+    K("c01::k_iso_facts", pre=lambda a: in_range(a[2], 1, 7),
+      claims=[("ISOWeekDate::{weeks_in_year, in_long_year, days_in_year} == 53 weeks iff Dec 31 is a Thursday, or a Friday in a leap year",
+               lambda a, o: And(o.is_some, Implies(o.some.is_some, And(o.some.some[0].i == If(ref_long_year(a[0]), 53, 52),
+                                                                      o.some.some[1].b == ref_long_year(a[0]),
+                                                                      o.some.some[2].i == If(ref_long_year(a[0]), 371, 364)))))],
+      bounds={0: (-32768, 32767), 1: (-128, 127), 2: (1, 7)}, split=(0, {"quick": 4, "thorough": 16})),
 ]
